@@ -299,6 +299,35 @@ func runBlk(ctx *Ctx) {
 			}
 		}
 	}
+	// a whole EARLIER segment is freed while a later one still holds allocations, then the store is reopened (every
+	// header must be read at open, whatever the earlier ones say): 2..3 segments, every emptied segment, both orders
+	for _, bs := range []int{1, 2} {
+		per := 8 * bs
+		ss := (per + 1) * bs
+		for segs := 2; segs <= 3; segs++ {
+			for emptied := 0; emptied < segs-1; emptied++ {
+				for _, desc := range []bool{false, true} {
+					var ops []string
+					total := per*(emptied+1) + 1 + (emptied+segs)%3
+					for i := 0; i < total; i++ {
+						ops = append(ops, "arrange")
+					}
+					for i := 0; i < per; i++ {
+						idx := emptied*per + i
+						if desc {
+							idx = emptied*per + per - 1 - i
+						}
+						ops = append(ops, fmt.Sprintf("free %d", idx))
+						if i == per-2 || i == per-1 {
+							ops = append(ops, "reopen", "avail")
+						}
+					}
+					ops = append(ops, "arrange", "reopen", "avail", "arrange")
+					blkRunCase(ctx, bs, segs*ss, true, nil, ops)
+				}
+			}
+		}
+	}
 	// tiny geometries exhaustively: bs=1 (8 blocks/segment), 1..2 segments, reopen after ops
 	depth := 5
 	if ctx.Thorough {
